@@ -15,6 +15,12 @@ PENDING = "check not built yet (implementation in progress); the design is in DE
 
 VPNOTE = 'Trusted: clang AST, the path engine, the fact language of sa/vp.py (what counts as a reducing producer / accepted test is listed there), buffer identity by carve expression; frozen per-function tables (point-validation level, accepted alternative forms) carry one reason each. Decides necessary structural conditions, not the numerical statements of the property.'
 CHECKS = {
+ "C12": dict(level="other",
+   text="Must-call completeness on all paths: for 18 validators (parameter sets of bign/bign96/g12s/dstu/stb99/pfok, public keys, key pairs, points, curve validity and group safety, bels public keys, field validity) the multiset of sub-checks accepted on the way to every success return is recomputed and must contain the frozen set read off the reference tree (74 obligations incl. MOV thresholds and 'G has order q'); the six YYMMDD octets are digit-tested before arithmetic; priIsPrime's Rabin-Miller iteration count is at least B_PER_IMPOSSIBLE/2. That the primality / irreducibility / next-prime routines compute the right answer is number theory over all inputs and is declined.",
+   design="4/C12", technique="must-pass-through (dominance on all CFG paths) against a frozen sub-check table", note=VPNOTE),
+ "C17": dict(level="other",
+   text="Must-pass-through analysis on all paths of the CV-certificate functions (Val, Val2, Iss, Match, Unwrap, Check, Check2, Wrap): success only after unwrap under the issuer's key, signature verification whenever a key is given, authority == issuer holder, issuer.from <= cert.from <= issuer.until with the right operands, explicit date inside the validity period; secure messaging: the parity test on ctr[0] (truth table over all 256 octet values) refuses exactly one parity before any use of the session keys, Wrap/Unwrap of one direction agree, directions use opposite parities, decryption only after the MAC was accepted; key/share containers release content only after beltKWPUnwrap accepted. Parse-back equality and recovery of APDUs unchanged are value statements and are declined.",
+   design="4/C17", technique="must-pass-through dataflow + exhaustive evaluation of the one-octet parity predicate", note=VPNOTE),
  "C04": dict(level="other",
    text="Validation-presence analysis on all paths of every bake (BMQV/BSTS/BPACE) and BAUTH step: received points pass both coordinate reductions and the on-curve test before any EC arithmetic; each verifying step succeeds only after its MAC / point comparison / certificate callback / component range test accepted, under the same kca/kcb flag as the step that produces the tag (checked over all four flag combinations); ephemeral scalars sampled modulo the order; drivers test every step's result; the state keys K0/K1/K2 are derived by an earlier step of the same party in every flag combination in which a later step reads them. Equality of the derived keys and rejection of every tampered run are value statements and are declined.",
    design="4/C04", technique="validation-presence dataflow + writer/reader agreement across protocol steps", note=VPNOTE),
